@@ -1,5 +1,6 @@
 (* C08 - callNovelORF equals the definitional ORF digest.  Property theorems only. *)
 From Coq Require Import ZArith List Bool Lia Sorted.
+From MoPep Require Gen.Expasy Model.ExpasyRef Proofs.ExpasyProofs.
 From MoPep Require Import Model.Base Model.Rule Model.Digest Model.W2F Model.NovelOrf
                           Gen.NovelOrfCfg Gen.Bio
                           Proofs.W2FProofs Proofs.CleaveSpec Proofs.NovelOrfProofs Proofs.NovelOrfCfgProofs.
@@ -75,3 +76,10 @@ Theorem cleave_spec : forall wt water lim r exc nf s q,
   In q (cleave wt water lim r exc nf s) <-> Product wt water lim r exc nf s q.
 Proof. exact CleaveSpec.cleave_spec. Qed.
 Print Assumptions cleave_spec.
+
+(* The oracle of this property digests with the rule tables regenerated from expasy_rules.py
+   (coq/Gen/Expasy.v); they must be the ExPASy reference rules (same obligation as in Props/C10.v),
+   otherwise model and implementation would silently follow a changed rule together. *)
+Theorem rules_are_expasy_reference : MoPep.Gen.Expasy.site_rules = MoPep.Model.ExpasyRef.reference_rules.
+Proof. exact MoPep.Proofs.ExpasyProofs.rules_match_reference_proof. Qed.
+Print Assumptions rules_are_expasy_reference.
